@@ -301,6 +301,8 @@ def run_negative(case):
         req = [p for p in sig.parameters.values() if p.default is p.empty and p.kind in (p.POSITIONAL_ONLY, p.POSITIONAL_OR_KEYWORD)]
         if len(req) != 2:
             continue
+        if "solve" in fname and not (built[0].pd and dense.shape[-1] == dense.shape[-2]):
+            continue  # solves are defined for positive definite operators only (C04); what they do elsewhere is not a dispatch question
         for order, impl_args, ref_args in (("first", (op, Tn), (dense, Tn)), ("second", (Tn, op), (Tn, dense))):
             feat = {"name": name, "f": fname, "order": "bin-" + order, "kind": "sweep"}
             key = f"bin|{name}|{fname}|{order}"
